@@ -65,3 +65,37 @@ Proof.
     apply IH. apply cstep_inv. exact Hs. }
   specialize (H ([], cs) eq_refl). destruct (fold_left cstep evs ([], cs)) as [out pend]. exact H.
 Qed.
+
+(* ---- if / else-if ladders: printing then parsing returns the ladder, every rung with its own init *)
+Lemma parse_rung_print r rest : parse_rung (print_rung r ++ rest) = Some (r, rest).
+Proof. destruct r as [[i|] c b]; reflexivity. Qed.
+
+Definition no_else (rest : list htok) : Prop := match rest with HElse :: _ => False | _ => True end.
+
+Lemma parse_tail_print : forall rs e rest fuel,
+  no_else rest ->
+  (List.length (flat_map (fun r => HElse :: print_rung r) rs ++
+                match e with Some b => [HElse; HBody b] | None => [] end ++ rest) < fuel)%nat ->
+  parse_tail fuel (flat_map (fun r => HElse :: print_rung r) rs ++
+                   match e with Some b => [HElse; HBody b] | None => [] end ++ rest) = Some (rs, e, rest).
+Proof.
+  induction rs as [|r rs IH]; intros e rest fuel Hn Hf.
+  - cbn [flat_map app] in *. destruct fuel as [|f]; [lia|]. destruct e as [b|].
+    + reflexivity.
+    + cbn [app parse_tail]. destruct rest as [|t r']; [reflexivity|]. destruct t; try reflexivity. contradiction.
+  - destruct fuel as [|f]; [lia|].
+    assert (Hlen : (List.length (flat_map (fun r => HElse :: print_rung r) rs ++
+                      match e with Some b => [HElse; HBody b] | None => [] end ++ rest) < f)%nat).
+    { cbn [flat_map] in Hf. rewrite !app_length in Hf. cbn [List.length] in Hf. rewrite !app_length. lia. }
+    specialize (IH e rest f Hn Hlen).
+    destruct r as [[i|] c b];
+      cbn [flat_map print_rung r_init r_cond r_body app]; rewrite <- ?app_assoc; cbn [app parse_tail parse_rung];
+      rewrite IH; reflexivity.
+Qed.
+
+Lemma parse_print_ladder l rest : no_else rest -> parse_ladder (print_ladder l ++ rest) = Some (l, rest).
+Proof.
+  intros Hn. destruct l as [r1 rs e]. unfold parse_ladder, print_ladder. cbn [l_first l_rest l_else].
+  rewrite <- app_assoc. rewrite parse_rung_print. rewrite <- app_assoc.
+  rewrite parse_tail_print; [reflexivity|exact Hn|lia].
+Qed.
